@@ -8,6 +8,7 @@ package main
 //     the verif-tagged EndBlockHook; then height and time advance.
 
 import (
+	abci "github.com/tendermint/tendermint/abci/types"
 	"context"
 	"crypto/sha256"
 	"encoding/binary"
@@ -133,6 +134,9 @@ type Chain struct {
 	HasModSvc bool // the test module service is registered
 	Prepared  bool // the zero-height preparation has run on this chain
 
+	// the events the end blocker emitted, per height: what an off-chain client reads back from a node
+	EndEvents map[int64][]abci.Event
+
 	// sub-step observer for EndBlocker (set by the driver)
 	OnSub func(stage string, id int)
 
@@ -189,7 +193,7 @@ func NewChain(p MParams, names []string, bal map[string]int64) *Chain {
 		App: app, K: app.ServiceKeeper, Height: 1, Now: NowOffset, Phase: "deliver", Params: p,
 		Names: append([]string{}, names...), Addr: map[string]sdk.AccAddress{}, NameOf: map[string]string{},
 		CtxIDs: map[string]int{}, CtxBytes: map[int][]byte{}, ModSvcs: map[string]string{},
-		React: map[int]Reaction{}, ReactCons: map[int]string{},
+		React: map[int]Reaction{}, ReactCons: map[int]string{}, EndEvents: map[int64][]abci.Event{},
 	}
 	c.Ctx = app.BaseApp.NewContext(false, tmproto.Header{Height: c.Height, Time: realTime(c.Now)})
 	c.Handler = service.NewHandler(c.K)
@@ -431,6 +435,7 @@ func (c *Chain) EndBlock(dt int64) (out Outcome) {
 	c.evSeen = 0
 	c.EvReqs = nil
 	service.EndBlocker(c.Ctx, c.K)
+	c.EndEvents[c.Height] = c.Ctx.EventManager().ABCIEvents()
 	c.Height++
 	c.Now += dt
 	c.Phase = "deliver"
